@@ -12,6 +12,7 @@ import PqlModel.Props.C05NoPlaceholder
 import PqlModel.Props.C01WriteExprIR
 import PqlModel.Props.C01WriteExprIRCases
 import PqlModel.Props.C01WriteExprIRAll
+import PqlModel.Props.C07ExprIR
 #print axioms Pql.C01.C01_parens_write
 #print axioms Pql.C01.C01_parens_wrap
 #print axioms Pql.C01.C01_unparen_write
